@@ -7,6 +7,8 @@ HOOK_COMMITS = ["afa3aa0"]
 THEOREMS = {
     "C01": ("TrVerif.Props.C01", ["Tr.C01", "Tr.C01_with", "Tr.C01_modulo_cleanup", "Tr.cleanupPreserves", "Tr.revScanList_inv", "Tr.reconLoop_valid", "Tr.emit_valid"]),
     "C02": ("TrVerif.Props.C02", ["Tr.C02_partial", "Tr.C02_times", "Tr.C02_arrival", "Tr.C02_first_wait", "Tr.stepsOfLegs_transfer", "Tr.bestEgress_spec"]),
+    "C04": ("TrVerif.Props.NonVacuity", ["Tr.C04_optimal", "Tr.singleReverse_optimal", "Tr.revStep1_RCθ", "Tr.revScanList1_RCθ", "Tr.bestAccess_ge", "Tr.init_RCθ",
+                                         "Tr.revIndex_spec", "Tr.C01", "Tr.C02_times", "Tr.C02_arrival", "Tr.nv_hypotheses", "Tr.nv_hypotheses_reverse", "Tr.nv_admissible", "Tr.nv_results"]),
     "C06": ("TrVerif.Props.C06", ["Tr.C06_totals", "Tr.C06_route"]),
     "C07": ("TrVerif.Props.C07Data", ["Tr.C07_route_strings", "Tr.C07_accessibility_strings", "Tr.C07_enum_order", "Tr.C07_access",
                                       "Tr.C07_route_no_service_from_origin", "Tr.C07_no_service_from_origin_data", "Tr.C07_no_service_from_origin",
@@ -63,12 +65,20 @@ _reg("C02", "PROOF (all clauses, over the model): Tr.C02_partial - every ridden 
      "invariant, the reconstruction, the four clean-up rewrites and the emission. " + _M + "; " + _O + " (check_limits).",
      "Lean 4 theorems (invariant + refinement chain) + differential correspondence + executable oracle")
 for _pid, _what in (("C03", "earliest arrival (reference forward solver over all admissible journeys)"),
-                    ("C04", "latest departure (reference backward solver)"),
                     ("C05", "latest departure for the reported arrival (reference backward solver from the reported arrival)")):
     _reg(_pid, "NO THEOREM for the optimality this property is about (proofs not reached; DESIGN 0.1). That the returned route is an executable itinerary within the limits is C01 / C02 "
          "(proved). " + _M + " in full; " + _what + " is recomputed for every generated case by an independent brute-force reference and compared with the implementation's answer. "
          "This is testing of the property on generated inputs, not a proof.",
          "differential correspondence with the Lean model + reference solver on generated inputs (no theorem)")
+_reg("C04", "PROOF (over the model, on the property's own domain; one outcome left open): Tr.C04_optimal - for every well-formed dataset with positive hop times and ONE minimum waiting time "
+     "(no `transferable` line), scenario and arrival-time query: (1) a returned route departs no earlier than ANY admissible journey (AdmRev: access entry, permitted boarding of an admitted trip "
+     "at its stop, permitted alighting from which the place is still reached by the requested time - inductive RReach -, departure at or after 0:00, span within max_travel_time); that the "
+     "route itself is an executable itinerary within those limits is Tr.C01 / Tr.C02_times / Tr.C02_arrival, so its departure IS the maximum; (2) when an admissible journey exists the answer "
+     "is never no_routing_found (any reason). Proved by a completeness invariant of the single reverse scan relative to a cut line taken from the final state (max_travel_time; once an access "
+     "stop is reached, its departure minus the longest access walk - Tr.revStep1_RCθ), the keep rule, the best-access selection (Tr.bestAccess_ge) and the transparency of the reverse hour "
+     "index. NOT proved: that the model's fuel-bounded reconstruction / clean-up never end in its `exception` outcome on well-formed data (observed by the correspondence, never seen). Outside "
+     "the domain the statement is false (DESIGN 7a O10: a `transferable` line). " + _M + "; the brute-force reference solver is still run on every answer.",
+     "Lean 4 theorems (completeness invariant of the single reverse scan + best-access selection; with C01/C02 for achievability) + differential correspondence + reference solver")
 _reg("C06", "PROOF (full, over the model): Tr.C06_totals - the clock chain and every total/identity of the property hold for every journey value the emission pass "
      "can produce; Tr.C06_route lifts it to every route returned on a well-formed dataset. " + _M + "; " + _O + ".",
      "Lean 4 theorem over the emission model + differential correspondence")
